@@ -199,7 +199,7 @@ func newHistEnv() *histEnv {
 func sptr(s string) *string { return &s }
 
 // declared values of the enum column e in the initial frames
-var c01EnumVals = []string{"hi", "Hi", "lo", "mid"}
+var c01EnumVals = []string{"hi", "HI", "Hi", "lo", "mid"}
 
 // initial frames
 func (e *histEnv) initial(id int) qframe.QFrame {
@@ -212,7 +212,7 @@ func (e *histEnv) initial(id int) qframe.QFrame {
 			"f": []float64{1.5, math.NaN(), -2, 1.5, math.Copysign(0, -1)},
 			"b": []bool{true, false, true, true, false},
 			"s": []*string{sptr("a"), nil, sptr(""), sptr("b"), sptr("a")},
-			"e": []*string{sptr("lo"), sptr("hi"), nil, sptr("Hi"), sptr("lo")},
+			"e": []*string{sptr("lo"), sptr("hi"), nil, sptr("HI"), sptr("lo")},
 			"k": []int{1, 0, 1, 0, 1},
 		}, enums)
 	case 1: // zero rows
@@ -226,7 +226,7 @@ func (e *histEnv) initial(id int) qframe.QFrame {
 	case 4: // 40 rows, 20 distinct keys k (more groups than any small-size shortcut), ties in every column
 		n := 40
 		is, fs, bs, ss, es, ks := make([]int, n), make([]float64, n), make([]bool, n), make([]*string, n), make([]*string, n), make([]int, n)
-		evs := []string{"lo", "hi", "Hi", "mid"}
+		evs := []string{"lo", "hi", "Hi", "HI"}
 		for r := 0; r < n; r++ {
 			is[r] = (r * 7) % 11
 			fs[r] = float64((r*5)%9) / 2
@@ -561,11 +561,13 @@ func c01Run(ctx *core.Ctx) {
 			nfam := len(fam)
 			for mi := 0; mi < nfam; mi++ {
 				m := fam[mi]
-				if m.isErr {
-					continue // operations on errored members are C10's subject
-				}
 				for oi, op := range ops {
 					if op.on != m.kind || stop {
+						continue
+					}
+					// operations on errored members are C10's subject, except that looking at one (ToCSV,
+					// ToJSON, String, Equals) must not change it or any other member either
+					if m.isErr && !(strings.HasPrefix(op.name, "To") || op.name == "String" || strings.HasPrefix(op.name, "Equals")) {
 						continue
 					}
 					// shard on the depth-2 edge; depth-1 edges are executed by every worker
